@@ -351,7 +351,7 @@ def run(ctx):
                        "Encode, EncodeSW, GetFullSamples, lazy decode (DecModeLazyMdat) + MdatBox.ReadData/CopyData through an own ReadSeeker over the shared bytes (both branches of ReadData: lazy -> fresh buffer, in memory -> view), InitProtect+EncryptFragment cenc/cbcs, DecryptInit+DecryptSegment (init and media in one or in separate objects, any decode path for either; DecryptInfo own or shared between goroutines), NAL conversions, AddCompatibleBrands/AddSampleData appends; inputs also 38 dac3/dec3/ac-3/ec-3 configurations and a greedy box-type cover of the repository's sample files), "
                        "after every op: aliasing of the target object by pointer range over every reachable []byte, byte comparison of every shared input with its pristine copy; "
                        "search: %d independent rounds of 2-16 goroutines (random start skew, Gosched injection) + %d rounds of the recorded "
-                       "scenario; every 4th round: each goroutine decodes and inspects (Info, ChannelInfo, Encode) DIFFERENT AC-3/E-AC-3 boxes or zoo files; goroutine t uses key t%%3; oracles: race detector (%s), per-op and final digests vs the sequential run on private copies, input hashes, ChannelInfo vs tables written from the standard, first-seen result of every program prefix (history); "
+                       "scenario; every 4th round: each goroutine decodes and inspects (Info, ChannelInfo, Encode) DIFFERENT AC-3/E-AC-3 boxes or zoo files; goroutine t uses key t%%3 and an 8- or 16-byte IV ((t/2)%%2); every key / IV / KID argument is a sub-slice tab[a:b] (cap > len) of one key table per world whose neighbouring ranges belong to the other goroutines (64 guard bytes at the end), every shared input has 32 guard bytes of spare capacity behind it: the library must not write behind len(arg) or into the table (table / guard compared after every corr op, after every run-alone program and after every round); oracles: race detector (%s), per-op and final digests vs the sequential run on private copies, input hashes, ChannelInfo vs tables written from the standard, first-seen result of every program prefix (history); "
                        "distinct = distinct program texts" % (n, nr, nk, "on" if race_ok else "NOT AVAILABLE"))
 
 
